@@ -9,6 +9,7 @@ package c13
 import (
 	"fmt"
 	"math/rand"
+	"net/netip"
 	"strings"
 	"testing"
 	"time"
@@ -405,13 +406,13 @@ func TestFailureCacheReplay(t *testing.T) {
 		t.Fatal(err)
 	}
 	defer tr.close()
-	rng := vh.Rand()
 	shapes := in.Shapes
 	if shapes <= 0 {
 		shapes = 1
 	}
 	runPath := func(id string, steps []mStep, shapeIdx int) {
-		r, err := newFcRun(&in, res, tr, shapeIdx, rng, id)
+		si := shapeIdx + in.ShapeBase
+		r, err := newFcRun(&in, res, tr, si, pathRand(id+"/"+shapeDefs[si%len(shapeDefs)].name), id)
 		if err != nil {
 			res.Skip("path %s: %v", id, err)
 			return
@@ -438,7 +439,60 @@ func TestFailureCacheReplay(t *testing.T) {
 		}
 	}
 	for i := 0; i < in.Random && len(res.Skipped) == 0; i++ {
-		runPath(fmt.Sprintf("random%d", i), randomSteps(&in, rng, 60), i)
+		id := fmt.Sprintf("random%d", i)
+		runPath(id, randomSteps(&in, pathRand(id), 60), i)
 	}
 	res.Count("trace_lines", tr.n)
+}
+
+// TestCeiling: "never exceeds the configured maximum (hard ceiling 5 minutes)" at the
+// configuration boundary: the constructor must refuse a maximum above five minutes, and a
+// cache.Cache built from such a configuration must still never suppress longer.
+func TestCeiling(t *testing.T) {
+	var in mInput
+	vh.Input(t, &in)
+	res := vh.NewResult()
+	defer res.Write(t)
+	clock := newClock()
+	for _, max := range []time.Duration{5*time.Minute + time.Second, 10 * time.Minute, time.Hour} {
+		res.Case(fmt.Sprint("ceiling/", max))
+		res.Count("steps", 1)
+		fc, err := mcache.NewFailureCache(mcache.FailureCacheConfig{Size: 16, InitialTTL: time.Second, MaxTTL: max, Now: clock.Now})
+		if err == nil {
+			// accepted: then it must at least never back off beyond five minutes
+			k := getShape(0).realQ(qkey{3, 1, 1, 0, 0}, nil)
+			for i := 0; i < 14; i++ {
+				hit := fc.RecordQuestion(k, "response", nil)
+				if rem := hit.RetryAfter.Sub(clock.Now()); rem > 5*time.Minute {
+					violate(res, "Envelope", fmt.Sprintf("NewFailureCache accepted a maximum of %v and backs off %v after %d consecutive failures (hard ceiling 5 minutes)", max, rem, i+1),
+						map[string]any{"driver": "TestCeiling", "max": max.String()})
+					break
+				}
+				clock.Advance(hit.RetryAfter.Sub(clock.Now()))
+			}
+			fc.Stop()
+		}
+		// through cache.New: an invalid configuration falls back, it never widens the envelope
+		c := newCacheWith(time.Second, max, clock)
+		sh := getShape(0)
+		store, _ := c.Store().(*mcache.Store)
+		req := new(dns.Msg)
+		req.SetQuestion(sh.names[3], dns.TypeA)
+		for i := 0; i < 14 && store != nil; i++ {
+			store.RecordFailure(req, netip.Prefix{}, "response", nil)
+			worst := time.Duration(0)
+			for _, e := range c.VerifC13Failure().VerifC13Snapshot() {
+				if d := e.RetryAfter.Sub(clock.Now()); d > worst {
+					worst = d
+				}
+			}
+			if worst > 5*time.Minute {
+				violate(res, "Envelope", fmt.Sprintf("cache.New with failure_cache_max_ttl=%v suppresses a question for %v after %d consecutive failures (hard ceiling 5 minutes)", max, worst, i+1),
+					map[string]any{"driver": "TestCeiling", "max": max.String()})
+				break
+			}
+			clock.Advance(worst)
+		}
+		c.Stop()
+	}
 }
